@@ -320,6 +320,21 @@ def _sample_models(eng, h, unit, pending, res):
             if not vals:
                 break
             block.append(z3.Or(vals))
+        # boundary-biased samples: each symbolic string starting with a character that native
+        # code commonly treats specially
+        inp = getattr(eng, '_last_inputs', None) or {}
+        extra = 0
+        for name in sorted(inp):
+            v = inp[name]
+            if not isinstance(v, SymStr) or not v.cs or isinstance(v.cs[0], int):
+                continue
+            for ch in '~./#$%<>-+:[ \t':
+                if extra >= 30:
+                    break
+                m = eng.model(v.cs[0] == ord(ch))
+                if m is not None:
+                    pending.append(('sample', concretize(inp, m), None))
+                    extra += 1
     except SolverUnknown:
         pass
 
